@@ -12,7 +12,7 @@
 
     What is NOT here (stated, not mechanised): sequential composition over all openings of an adaptive
     program (union bound); PRF outputs / [secrets.randbelow] being uniform (oracle assumptions). *)
-From Coq Require Import ZArith List Bool Lia Znumtheory String.
+From Coq Require Import ZArith List Bool Lia Znumtheory String MSetPositive.
 Require Import MPyC.Zp.
 Import ListNotations.
 Local Open Scope Z_scope.
@@ -599,7 +599,49 @@ Qed.
 
 (** rows of the generated product-opening table: is the opened value a local product of sharings, and is
     a zero sharing / reshare applied before the opening on every path (for all field sizes)? *)
-Inductive rerand := RAlways | RConditional | RNever.
+Inductive rerand := RAlways | RConditional | RNever | RReused.
 Record prow := MkPRow { psite : string; pproduct : bool; prerand : rerand }.
 Definition prow_ok (r : prow) : bool :=
   negb (pproduct r) || match prerand r with RAlways => true | _ => false end.
+
+(** * Reusing one zero sharing for two openings
+
+    If two products P1 = f_r f_s and P2 = f_a f_r are opened (threshold 2t) after adding the SAME sharing of
+    zero Z, the mask cancels in the difference of the received shares. *)
+Lemma same_zero_sharing_cancels (P1 P2 Z : Z -> Z) x : (P1 x + Z x) - (P2 x + Z x) = P1 x - P2 x.
+Proof. lia. Qed.
+
+(** Exhaustive count over GF(7), m = 3, t = 1, party at X = 1: its view contains its own shares of a, r, s, the
+    two opened values r*s and a*r, and — Z having cancelled — D = f_r (f_s - f_a) at X = 2, 3.  Views are
+    encoded as one positive number. *)
+Definition p7 : Z := 7.
+Definition F7 : list Z := zrange 0 7.
+Definition F7_nz : list Z := zrange 1 6.
+
+Definition reuse_view (a al r rh s sg : Z) : positive :=
+  let p := p7 in
+  let fa x := (a + al * x) mod p in
+  let fr x := (r + rh * x) mod p in
+  let fs x := (s + sg * x) mod p in
+  let d x := (fr x * (fs x - fa x)) mod p in
+  Z.to_pos (1 + fa 1 + p * (fr 1 + p * (fs 1 + p * (d 2 + p * (d 3 + p * ((r * s) mod p + p * ((a * r) mod p))))))).
+
+(** all tapes with r, s nonzero (both public results "nonzero" are then the same for every nonzero a) *)
+Definition reuse_views (a : Z) : list positive :=
+  flat_map (fun al => flat_map (fun r => flat_map (fun rh => flat_map (fun s =>
+    map (fun sg => reuse_view a al r rh s sg) F7) F7_nz) F7) F7_nz) F7.
+
+Definition reuse_overlap (a a' : Z) : nat :=
+  let S := fold_left (fun acc v => PositiveSet.add v acc) (reuse_views a') PositiveSet.empty in
+  List.length (filter (fun v => PositiveSet.mem v S) (reuse_views a)).
+
+(** "Equal outputs give equal view distributions" is REFUTED when the zero sharing is reused: of the 12348
+    tapes of a = 1 only 1764 (one in seven) give a view possible for another nonzero secret: SD >= 6/7. *)
+Theorem zero_sharing_reuse_leaks_refuted :
+  Z.of_nat (List.length (reuse_views 1)) = 12348 /\
+  forall a', In a' (zrange 2 5) -> reuse_overlap 1 a' = 1764%nat.
+Proof.
+  split; [vm_compute; reflexivity|].
+  assert (H : forallb (fun a' => Nat.eqb (reuse_overlap 1 a') 1764) (zrange 2 5) = true) by (vm_compute; reflexivity).
+  rewrite forallb_forall in H. intros a' Ha. apply Nat.eqb_eq. auto.
+Qed.
